@@ -98,7 +98,7 @@ theorem C01_placement_placeable (c : Cfg) (nodes : List NodeSt) (r : Req) (cps s
     (h : nodeLoop c nodes r cps spn req mpi colo skip nodes.length { rem := req, offset := o0 % nodes.length } = .ok it') :
     Placeable nodes it'.alc := by
   refine nodeLoop_placeable c nodes r cps spn req mpi colo skip hw hnn hcps o0 nodes.length 0 _ it' (by omega) ?_ h
-  exact ⟨by simp, placeable_nil nodes, fun sl hs => by cases hs⟩
+  exact ⟨by simp, placeable_nil nodes hnn, fun sl hs => by cases hs⟩
 
 /-! ## the application-level slot finder (`pilot.nodelist`) -/
 
